@@ -143,6 +143,7 @@ type Step struct {
 type Case struct {
 	SyncMode  int    `json:"sync_mode"` // 0 none, 1 batch, 2 immediate
 	SyncBytes int64  `json:"sync_bytes"`
+	MaxSize   int64  `json:"wal_max_size,omitempty"` // cfg.WALMaxSize (0 = default 64 MiB): files of the case may reach or exceed it
 	Steps     []Step `json:"steps"`
 }
 
@@ -453,6 +454,9 @@ func runCase(c *Case) (mm *Mismatch) {
 	r.cfg.WALSyncMode = config.SyncMode(c.SyncMode)
 	if c.SyncBytes > 0 {
 		r.cfg.WALSyncBytes = c.SyncBytes
+	}
+	if c.MaxSize > 0 {
+		r.cfg.WALMaxSize = c.MaxSize
 	}
 	r.w, err = r.newWAL()
 	if err != nil {
@@ -878,6 +882,7 @@ func genCase(t *rapid.T) Case {
 	c := Case{
 		SyncMode:  rapid.IntRange(0, 2).Draw(t, "syncmode"),
 		SyncBytes: rapid.SampledFrom([]int64{1, 4096, 1 << 20}).Draw(t, "syncbytes"),
+		MaxSize:   rapid.SampledFrom([]int64{0, 0, 4096, 64 << 10, 256 << 10}).Draw(t, "walmaxsize"),
 	}
 	n := rapid.IntRange(1, 60).Draw(t, "nsteps")
 	tag := uint32(0)
